@@ -94,6 +94,11 @@ CLAIMED = {
    text="TLC checks that duplicates under key equality (params ignored) are rejected before anything is sent, that each id is sent once, that every reply entry is filed under the caller's own key of the same key part with none lost or duplicated, and that a reply naming an unrequested key fails, for every list of <= 2 keys over 3 key parts (two colliding) x params and every adversarial reply of the bound. Each behaviour is replayed: AddKey / LocateOriginalKey on a colliding key type (pointer identity), BatchGet on the generated collCK client and BatchDelete on the generated collStr client with the reply re-encoded with other params and alternative escapes; result maps must be keyed by the caller's own key values (pointer identity for complex keys).",
    note="replies holding one key twice in a map are not conforming and not generated; quick tier samples 30000 of the 115000 behaviours by seed",
    design="5/C16"),
+ "C17": dict(
+   technique="the sequential TLA+ specifications (Router.tla, D2.tla's Eligible, Server.tla's error propagation, LazyMap's atomic-map trace spec) are the reference for every request of a concurrent run: N goroutines drive one handler / client / resolver / registry / map, each observed outcome is compared with the outcome the specification assigns to that request alone (sampled exchanges are trace-validated by TLC), and the same executions run under the Go race detector",
+   text="Model requests exported by TLC from Router.tla are sent by 16 goroutines to one shared handler per mounting and every outcome compared with the admissible set; a sample is validated by TLC against the declarative layer. 8-16 goroutines resolve through one D2 resolver while announcements change (results must be eligible in some state of the history), hit one handler that returns one shared error object and per-request headers / statuses (each request must see its own keys, parameters, headers, status; the shared object must stay unmodified), use one client (each call must get its own response) and the custom-typeref registry. All harness binaries are -race builds; any race report on code under /repo is a violation.",
+   note="data-race freedom itself is decided by the race detector, not by the specification (the isolation clause is); schedules are those the Go scheduler produces for the GOMAXPROCS values tried",
+   design="5/C17"),
 }
 
 NOT_YET = {}
